@@ -120,25 +120,25 @@ var props = map[string]propCfg{
 		Assumptions: commonAssumptions,
 	},
 	"C01": {
-		Require:      []string{"stream_typed_deliveries", "stream_rejected_d3_candidates", "direct_typed_no_error", "direct_rejected", "direct_reused_buffer_decodes", "direct_after_a_stream", "invalid_leaders_swept", "direct_with_spare_capacity"},
+		Require:      []string{"stream_typed_deliveries", "stream_rejected_d3_candidates", "direct_typed_no_error", "direct_rejected", "direct_reused_buffer_decodes", "direct_after_a_stream", "invalid_leaders_swept", "direct_with_spare_capacity", "typed_messages_rechecked_after_display", "damaged_frames_in_long_sessions"},
 		QuickBatches: 8, ThoroughBatches: 64, Parallel: 16, Level: "exploration", Floor: 200,
 		Rule:        "hostile streams (valid frames of random type/length, stray 0xD3 runs, near-miss leaders, frames with one corrupted CRC byte / payload byte / forced 0xD3 / burst, length-field edits with and without CRC recomputation, truncated frames, NMEA/UBX/HTTP-like junk, random bytes dense in 0xD3) run through the stream handler, every typed delivery checked with an independent frame predicate (bitwise CRC-24Q); plus direct single-frame decoding of candidates (valid, valid+trailing bytes, crafted over-long inputs whose declared-length prefix has a bad CRC but whose whole has a good one, corrupted, truncated, zero-length, random). A stream is non-trivial when the gate took both outcomes (>=1 typed delivery and >=1 rejected 0xD3-led candidate); a direct call is non-trivial when the input is 0xD3-led and rejected, or typed with input longer than the frame. Distinct by hash of the input bytes.",
 		Assumptions: commonAssumptions,
 	},
 	"C02": {
-		Require: []string{"messages_delivered", "hook_events", "stalled_runs", "held_up_once_runs", "second_streams_on_one_handler"},
+		Require: []string{"messages_delivered", "hook_events", "stalled_runs", "held_up_once_runs", "second_streams_on_one_handler", "streams_handled_side_by_side"},
 		Race:    true, QuickBatches: 16, ThoroughBatches: 64, Parallel: 8, Level: "exploration", Floor: 200,
 		Rule:        "inputs: empty, lone 0xD3, 0xD3 runs, junk ending in 0xD3, every truncation point of a frame (alone and after a complete frame), hostile and clean generated streams; each run under several schedules: input channel capacity in {0,1,2,64,len}, output capacity in {0,1,8}, producer/consumer timing profiles (full speed, frequent yields, rare sleeps, bursts), GOMAXPROCS in {1,2,4,16}, and check-time yield/sleep hooks before every channel operation of the handler. Oracle: concatenation of delivered raw bytes equals the input, no empty message, output closed (range terminates), HandleMessages returned; a second close or send-after-close is observed as a crash of the child; race detector on. Non-trivial: the input has segments of at least two kinds or ends inside a frame. Distinct by hash of (input, capacities, GOMAXPROCS, profiles).",
 		Assumptions: commonAssumptions,
 	},
 	"C03": {
-		Require:      []string{"payload_lengths_swept", "truncation_positions_swept", "messages_delivered_as_expected", "long_sessions", "long_junk_runs", "stalled_runs", "held_up_once_runs"},
+		Require:      []string{"payload_lengths_swept", "truncation_positions_swept", "messages_delivered_as_expected", "long_sessions", "long_junk_runs", "stalled_runs", "held_up_once_runs", "streams_handled_side_by_side"},
 		QuickBatches: 8, ThoroughBatches: 64, Parallel: 16, Level: "exploration", Floor: 200,
 		Rule:        "streams built from valid frames (any type, payload 1..1023; every payload length swept at least once; 0xD3 forced into payloads and found in CRC bytes), 0xD3-free junk runs (NMEA, UBX-like, HTTP, random; adjacent runs merged) and an optional truncated final frame (every truncation position of short frames swept). The expected (type, bytes) sequence is the generator's own segment list - no reference parser. Non-trivial: >=2 frames and (>=1 junk run or a truncated tail). Distinct by hash of the stream bytes.",
 		Assumptions: commonAssumptions,
 	},
 	"C12": {
-		Require:      []string{"single_bit_flips", "byte_overwrites", "random_faults", "neighbour_time_fields_compared", "repeated_frame_faults", "rollover_neighbour_faults", "stalled_runs", "short_victim_streams"},
+		Require:      []string{"single_bit_flips", "byte_overwrites", "random_faults", "neighbour_time_fields_compared", "repeated_frame_faults", "rollover_neighbour_faults", "stalled_runs", "short_victim_streams", "crc_byte_pairs_swept", "streams_handled_side_by_side"},
 		QuickBatches: 8, ThoroughBatches: 64, Parallel: 16, Level: "fault_enumeration", Floor: 1000,
 		Rule:        "streams of 2..5 short frames and 0xD3-free junk; every frame in turn is the victim; faults: every single-bit flip of payload and CRC (exhaustive for the short frames), every byte overwritten by 0xD3 and by 0x00, random multi-bit sets, bursts of 2..32 bits, CRC-only and payload-only corruption, plus random faults in large frames; the 3-byte leader is never touched; corruptions that keep the CRC valid are skipped and counted. Expected sequence by construction: the victim as one non-RTCM message with exactly its corrupted bytes, every other segment unchanged. Non-trivial: the victim has a successor frame. Distinct by hash of (faulted stream, victim index).",
 		Assumptions: commonAssumptions,
